@@ -375,7 +375,7 @@ def main():
     for (k, a, b, W) in joint:
         obs.append(common.Ob(f"real {k} placement: every (row {a} column, row {b} column) pair at width {W} is owned by some key", ob_joint, (k, a, b, W, tmo), hard_s=tmo / 1000 * 4 + 300,
                              bounds={"kernel": k, "rows": [a, b], "width": W, "keys": "8 symbolic bytes (solver) / random 8-byte keys (concrete witnesses)"}))
-    sensL = (list(range(1, 18)) + [24, 31, 32, 33, 63, 64, 65, 127, 128, 129, 255, 256, 257, 264]) if tier == "quick" else (list(range(1, 131)) + list(range(255, 265)) + [511, 512, 513])
+    sensL = (list(range(1, 18)) + [24, 31, 32, 33, 63, 64, 65, 127, 128, 129, 255, 256, 257, 264]) if tier == "quick" else (list(range(1, 131)) + list(range(255, 265)))
     for L in sorted(sensL, reverse=True):
         obs.append(common.Ob(f"real fasthash64: every byte of a {L}-byte key influences the hash", ob_sensitive, (L, tmo), hard_s=tmo / 1000 + 600, bounds={"key_len": L, "positions": "all", "byte values": "symbolic pair", "other bytes": "fixed pseudo-random context"}))
     results = common.run_obligations(obs, progress=os.environ.get("VERIF_VERBOSE") == "1")
